@@ -1,4 +1,5 @@
 use std::error::Error;
+#[cfg_attr(brc20_prog_verif, allow(unused_imports))]
 use std::sync::{RwLock, RwLockReadGuard};
 
 pub struct SharedData<T> {
@@ -25,6 +26,7 @@ impl<T> SharedData<T> {
     ///
     /// In case this is needed to be stored and/or used outside of the function,
     /// it is recommended to use the `read_fn` method instead.
+    #[cfg(not(brc20_prog_verif))]
     pub fn read(&'_ self) -> RwLockReadGuard<'_, T> {
         match self.inner.read() {
             Ok(guard) => guard,
@@ -32,34 +34,65 @@ impl<T> SharedData<T> {
         }
     }
 
-    /// This method allows you to read from the inner data and handle errors.
-    /// It returns a result of the operation.
-    pub fn read_fn<F, R>(&self, f: F) -> Result<R, Box<dyn Error>>
-    where
-        F: FnOnce(&T) -> Result<R, Box<dyn Error>>,
-    {
+    /// Instrumented variant of `read` (verification builds only): same locking, the guard is
+    /// wrapped so that acquisition and release are reported to the lock recorder.
+    #[cfg(brc20_prog_verif)]
+    #[track_caller]
+    pub fn read(&'_ self) -> crate::verif::VerifReadGuard<'_, T> {
+        let id = self as *const Self as usize;
+        let loc = std::panic::Location::caller();
+        crate::verif::lock_event(crate::verif::LockPhase::Before, id, false, loc);
         let guard = match self.inner.read() {
             Ok(guard) => guard,
             Err(error) => error.into_inner(),
         };
+        crate::verif::lock_event(crate::verif::LockPhase::Acquired, id, false, loc);
+        crate::verif::VerifReadGuard::new(guard, id, loc)
+    }
+
+    /// This method allows you to read from the inner data and handle errors.
+    /// It returns a result of the operation.
+    #[cfg_attr(brc20_prog_verif, track_caller)]
+    pub fn read_fn<F, R>(&self, f: F) -> Result<R, Box<dyn Error>>
+    where
+        F: FnOnce(&T) -> Result<R, Box<dyn Error>>,
+    {
+        #[cfg(brc20_prog_verif)]
+        let _verif = crate::verif::LockScope::enter(self as *const Self as usize, false);
+        let guard = match self.inner.read() {
+            Ok(guard) => guard,
+            Err(error) => error.into_inner(),
+        };
+        #[cfg(brc20_prog_verif)]
+        _verif.acquired();
         f(&*guard)
     }
 
     /// This method allows you to read from the inner data and handle errors.
+    #[cfg_attr(brc20_prog_verif, track_caller)]
     pub fn write_fn<F, R>(&self, f: F) -> Result<R, Box<dyn Error>>
     where
         F: FnOnce(&mut T) -> Result<R, Box<dyn Error>>,
     {
+        #[cfg(brc20_prog_verif)]
+        let _verif = crate::verif::LockScope::enter(self as *const Self as usize, true);
         let mut guard = self.inner.write().expect("Failed to acquire write lock");
+        #[cfg(brc20_prog_verif)]
+        _verif.acquired();
         f(&mut guard)
     }
 
     /// This method allows you to write to the inner data without checking for errors.
+    #[cfg_attr(brc20_prog_verif, track_caller)]
     pub fn write_fn_unchecked<F>(&self, f: F)
     where
         F: FnOnce(&mut T) -> (),
     {
+        #[cfg(brc20_prog_verif)]
+        let _verif = crate::verif::LockScope::enter(self as *const Self as usize, true);
         let mut guard = self.inner.write().expect("Failed to acquire write lock");
+        #[cfg(brc20_prog_verif)]
+        _verif.acquired();
         f(&mut guard)
     }
 }
